@@ -50,6 +50,9 @@ PROPS["C02"] = dict(
         "Zrnt.Proofs.C02.upgrade_deneb_eq",
         "Zrnt.Proofs.C02.upgradeMaybe_eq",
         "Zrnt.Proofs.C02.processSlotsStep_eq",
+        "Zrnt.Proofs.C02.EpochWF_of_Q",
+        "Zrnt.Proofs.C02.Q_genesis_like",
+        "Zrnt.Proofs.C02.processSlots_eq",
         "Zrnt.Proofs.C02.attestationDeltas_phase0_eq",
         "Zrnt.Proofs.C02.targetStakes_phase0_eq",
         "Zrnt.Proofs.C02.effectiveBalance_snapshot_eq",
